@@ -32,9 +32,14 @@ func (o *Oblig) query(relaxed bool) string {
 		b.WriteString(d)
 		b.WriteByte('\n')
 	}
-	for _, l := range o.prel.body {
-		if (o.Kind == "canary" || relaxed || o.relaxed) && strings.HasSuffix(l, "; axiom") {
+	for i, l := range o.prel.body {
+		if (o.Kind == "canary" || relaxed || o.relaxed) && strings.Contains(l, "; axiom") {
 			continue // quantified axioms make sat unreachable for the solvers; the canary checks everything else
+		}
+		// An obligation may use what was assumed before its program point, never what is assumed later (a loop invariant
+		// assumed at the head, a callee's postcondition after a later call): facts from the future can prove the present.
+		if o.nline > 0 && i >= o.nline && strings.HasPrefix(l, "(assert") && !strings.HasSuffix(l, "; spec") && !strings.HasSuffix(l, "; def") {
+			continue
 		}
 		b.WriteString(l)
 		b.WriteByte('\n')
